@@ -484,6 +484,7 @@ type FuncResult struct {
 	EntryEnv    *Env
 	AllTerms    []NamedTerm
 	PostEnv     *Env // entry values + call names + locals: for known-finding regions
+	Gone        bool // the contract's function does not exist (any more)
 }
 
 func (v *Verifier) wfAssume(c *Ctx, val Val) Term {
@@ -630,6 +631,9 @@ func (v *Verifier) VerifyFunc(fc *FuncContract) (res *FuncResult) {
 	fn := v.findFunc(fc.Pkg, fc.Name)
 	if fn == nil {
 		res.Unsupported = "function not found in /repo: " + fc.Pkg + "::" + fc.Name
+		// on the reference tree (write-lock) a contract without a function is a
+		// mistake in the contract file; later it is a deleted function
+		res.Gone = lockStructs != nil
 		return
 	}
 	c := NewCtx()
